@@ -21,18 +21,18 @@ EXPLANATION = ("Bounded symbolic execution (CrossHair/z3) of start_at and 2-3 st
                "order, with the record's content; the live spy callback received exactly the lines of each step's spy_rtc(), once, in order.")
 RULE = "one case per (step kinds, clock mode per step, host, live flags); non-trivial = at least one transition step under a standing clock"
 LIM = {"quick": dict(S=2), "thorough": dict(S=3)}
-STEPS = ["T", "H", "I"]
+STEPS = ["T", "H", "I", "S"]       # transition to the sibling, handled by the parent, ignored, self-transition (two of them under a standing clock give two identical records)
 
 
 def bounds(tier):
-  d = dict(LIM[tier]); d["meaning"] = "S = steps after start_at, each T/H/I; clock mode per phase 0 stands still/1 advances once/2 ticks every call; hosts HsmWithQueues, ActiveObject; live_spy x live_trace"
+  d = dict(LIM[tier]); d["meaning"] = "S = steps after start_at, each T/H/I/S (S = self-transition); ring 1 = the full spy log holds 8 lines; clock mode per phase 0 stands still/1 advances once/2 ticks every call; hosts HsmWithQueues, ActiveObject; live_spy x live_trace"
   return d
 
 
 def pre(v, lim):
-  if lim["S"] < 3 and (v["s3"] != 3 or v["m3"] != 0):
+  if lim["S"] < 3 and (v["s3"] != 4 or v["m3"] != 0):
     return False
-  if lim["S"] >= 3 and v["s3"] == 3 and v["m3"] != 0:
+  if lim["S"] >= 3 and v["s3"] == 4 and v["m3"] != 0:
     return False
   if v["live"] == 0:
     return False
@@ -74,17 +74,21 @@ class Clock:
       Clock.t += 1
 
 
-def case(s1, s2, s3, m0, m1, m2, m3, hosti, live):
+def case(s1, s2, s3, m0, m1, m2, m3, hosti, live, ring=0):
   host = 2 if hosti == 0 else 4
   ls, lt = live & 1, (live >> 1) & 1
   import miros.hsm as hsm
   real_dt = hsm.stdlib_datetime
   Clock.t, Clock.tick = 0, False
   hsm.stdlib_datetime = Clock
+  saved_ring = hsm.HsmEventProcessor.SPY_RING_BUFFER_SIZE
   try:
+    # ring = 1: the full spy log holds 8 lines only, so it wraps within the case (a long-running chart's log is always full)
+    hsm.HsmEventProcessor.SPY_RING_BUFFER_SIZE = 8 if ring else 500
     c, spy_lines, trace_lines = hosts.make(host, ls, lt)
     from miros.event import Event, signals, return_status
     T, H, I = Event(signal="T").signal, Event(signal="H").signal, Event(signal="I").signal
+    SELF = Event(signal="S").signal
 
     @hsm.spy_on
     def P(chart, e):
@@ -101,6 +105,8 @@ def case(s1, s2, s3, m0, m1, m2, m3, hosti, live):
         return return_status.HANDLED
       if e.signal == T:
         return chart.trans(B)
+      if e.signal == SELF:
+        return chart.trans(A)
       chart.temp.fun = P
       return return_status.SUPER
 
@@ -110,15 +116,17 @@ def case(s1, s2, s3, m0, m1, m2, m3, hosti, live):
         return return_status.HANDLED
       if e.signal == T:
         return chart.trans(A)
+      if e.signal == SELF:
+        return chart.trans(B)
       chart.temp.fun = P
       return return_status.SUPER
 
-    what = "host=%s live_spy=%d live_trace=%d steps=%s clock=%s" % (hosts.HOSTS[host], ls, lt, [s1, s2, s3], [m0, m1, m2, m3])
+    what = "host=%s live_spy=%d live_trace=%d steps=%s clock=%s%s" % (hosts.HOSTS[host], ls, lt, [s1, s2, s3], [m0, m1, m2, m3], " spy-ring=8" if ring else "")
     exp_trace, exp_spy = [], []
     seen = 0
     cur = "A"
     standing_tran = False
-    phases = [(None, m0), (s1, m1), (s2, m2)] + ([(s3, m3)] if s3 != 3 else [])
+    phases = [(None, m0), (s1, m1), (s2, m2)] + ([(s3, m3)] if s3 != 4 else [])
     for (st, mode) in phases:
       Clock.phase(mode)
       if st is None:
@@ -135,7 +143,7 @@ def case(s1, s2, s3, m0, m1, m2, m3, hosti, live):
       want_new = 0
       if st is None:
         want_new = 1
-      elif st == 0:
+      elif st in (0, 3):
         want_new = 1
         if mode == 0:
           standing_tran = True
@@ -161,10 +169,11 @@ def case(s1, s2, s3, m0, m1, m2, m3, hosti, live):
     return PASS(nontrivial=standing_tran)
   finally:
     hsm.stdlib_datetime = real_dt
+    hsm.HsmEventProcessor.SPY_RING_BUFFER_SIZE = saved_ring
 
 
-Family(globals(), "h_live", params=[("s1", 0, 2), ("s2", 0, 2), ("s3", 0, 3), ("m0", 0, 2), ("m1", 0, 2), ("m2", 0, 2), ("m3", 0, 2),
-                                    ("hosti", 0, 1), ("live", 0, 3)],
+Family(globals(), "h_live", params=[("s1", 0, 3), ("s2", 0, 3), ("s3", 0, 4), ("m0", 0, 2), ("m1", 0, 2), ("m2", 0, 2), ("m3", 0, 2),
+                                    ("hosti", 0, 1), ("live", 0, 3), ("ring", 0, 1)],
        pre=pre, case=case, split=["hosti", "live"], tiers=LIM)
 
 
